@@ -20,7 +20,7 @@ OPS = [
     "sum_bad", "cast", "cast_bad", "shares", "getitem", "getitem_bad", "setitem_arr", "setitem_arr_bad", "setitem_num",
     "setitem_nd", "setall_nd_bad", "set_values", "set_values_bad", "set_values_arr", "set_values_num", "inplace",
     "cumsum_bad", "copy", "split", "stack", "from_df", "set_df_bad", "stock", "stock_bad", "to_stock_type",
-    "set_values_bad", "setall_nd_bad", "new_bad", "other_len", "other_len",
+    "set_values_bad", "setall_nd_bad", "new_bad", "other_len", "other_len", "inplace_bad", "inplace_bad", "apply_fn", "apply_fn", "unary",
 ]
 
 step = st.fixed_dictionaries(
@@ -280,6 +280,28 @@ def run_history(desc):
             if s["k"] % 4 == 3 and not al:
                 continue
             call = [lambda: a.abs(inplace=True), lambda: a.sign(inplace=True), lambda: a.apply(np.negative, inplace=True), lambda: a.cumsum(al[s["how"] % len(al)], inplace=True)][s["k"] % 4]
+        elif op == "inplace_bad":
+            # ill-formed in-place apply: a binary ufunc without its second operand, a function with missing
+            # arguments, a function that raises - all must raise and leave every array as it was
+            mut = ai
+
+            def boom(v):
+                raise ArithmeticError("function applied to the values failed")
+
+            call = [lambda: a.apply(np.fmax, inplace=True), lambda: a.apply(np.add, inplace=True), lambda: a.apply(np.arctan2, inplace=True), lambda: a.apply(boom, inplace=True),
+                    lambda: a.apply(np.fmin), lambda: a.apply(boom)][s["k"] % 6]
+            must_raise = True
+        elif op == "apply_fn":
+            # legitimate shape-preserving functions that are not ufuncs (and accept out=), in place or not
+            import functools
+
+            fns = [functools.partial(np.clip, a_min=-1e12, a_max=1e12), np.round, np.nan_to_num, lambda v: v * 1.0, np.sign, np.abs]
+            fn = fns[s["k"] % len(fns)]
+            if s["how"] % 2:
+                mut = ai
+                call = lambda: a.apply(fn, inplace=True)
+            else:
+                call = lambda: add.append(a.apply(fn))
         elif op == "cumsum_bad":
             mut = ai
             call = lambda: a.cumsum("q", inplace=bool(s["how"] % 2))
